@@ -61,9 +61,12 @@ class Ident:
                         return self._of_value(v, mi, cfg, d.node, qual, e.id, depth + 1)
                     return ("unpack", qual, d.node, d.path)
                 return (d.kind, qual, e.id, d.node)
-            vals = {self._of_value(d.value, mi, cfg, d.node, qual, e.id, depth) if d.kind == "assign" else (d.kind, d.node) for d in non_param}
+            vals = {self._of_value(d.value, mi, cfg, d.node, qual, e.id, depth + 1) if d.kind == "assign" else (d.kind, d.node) for d in non_param}
             if len(vals) == 1:
                 return vals.pop()
+            if all(v[0] in ("param", "clone", "param|clone", "obj", "alt", "attr") for v in vals):
+                # the variable holds one of several known objects (e.g. a helper's `t = param; if t is None: t = clone(o)`)
+                return _alt(vals)
             return ("phi", qual, e.id, tuple(sorted(d.node for d in defs)))
         if isinstance(e, ast.Attribute):
             base = self.of(e.value, mi, cfg, at, qual, depth + 1)
@@ -113,10 +116,7 @@ class Ident:
             b = self._of_value(v.orelse, mi, cfg, node, qual, name, depth + 1)
             if a == b:
                 return a
-            kinds = {a[0], b[0]}
-            if kinds <= {"param", "clone", "param|clone"}:
-                return ("param|clone", qual, name if name != "<expr>" else f"ite@{getattr(v, 'lineno', 0)}:{getattr(v, 'col_offset', 0)}")
-            return ("alt", tuple(sorted([a, b], key=str)))
+            return _alt({a, b})
         if isinstance(v, ast.Call) and isinstance(v.func, (ast.Name, ast.Attribute)):
             fq = self.repo.resolve_expr(mi, v.func)
             if fq in ("flax.nnx.clone", "copy.deepcopy"):
@@ -131,6 +131,23 @@ class Ident:
                     pass
             return ("call", qual, node)
         return ("value", qual, node)
+
+
+def _alt(vals):
+    """One of several objects: nested alternatives are flattened; a single member is the member itself."""
+    flat = set()
+    for v in vals:
+        if isinstance(v, tuple) and v and v[0] == "alt":
+            flat |= set(v[1])
+        else:
+            flat.add(v)
+    if len(flat) == 1:
+        return next(iter(flat))
+    return ("alt", tuple(sorted(flat, key=str)))
+
+
+def alternatives(ident):
+    return list(ident[1]) if isinstance(ident, tuple) and ident and ident[0] == "alt" else [ident]
 
 
 def _project_expr(v, path):
@@ -152,13 +169,15 @@ def _project_expr(v, path):
 
 def has_base(ident, base) -> bool:
     """True if ``ident`` is ``base`` or an attribute (sub-module) of it."""
-    while True:
-        if ident == base:
-            return True
-        if isinstance(ident, tuple) and ident and ident[0] == "attr":
-            ident = ident[1]
-            continue
-        return False
+    if isinstance(ident, tuple) and ident and ident[0] == "alt":
+        return any(has_base(m, base) for m in ident[1])
+    if isinstance(base, tuple) and base and base[0] == "alt":
+        return any(has_base(ident, m) for m in base[1])
+    if ident == base:
+        return True
+    if isinstance(ident, tuple) and ident and ident[0] == "attr":
+        return has_base(ident[1], base)
+    return False
 
 
 def show(ident) -> str:
@@ -173,4 +192,6 @@ def show(ident) -> str:
         return f"{ident[1].rsplit('.', 1)[1]}@{ident[2]}"
     if k == "attr":
         return f"{show(ident[1])}.{ident[2]}"
+    if k == "alt":
+        return "|".join(show(m) for m in ident[1])
     return ":".join(str(x) for x in ident[:3])
